@@ -73,6 +73,13 @@ def render_seg(seg, sep, style="bs"):
                     delim = cand
                     break
             ttxt = delim + term + delim
+        elif style in ("qq1", "qq2") and term and not any(
+                ch in "[]()" for ch in term):
+            # README: an operand may be demarcated; embedded ' and " (and the
+            # backslash) are then escaped
+            mark = '"' if style == "qq1" else "'"
+            ttxt = mark + term.replace("\\", "\\\\").replace(
+                '"', '\\"').replace("'", "\\'") + mark
         elif style == "bs" or not quotable(term):
             ttxt = esc_bs(term, "", "")
         else:
